@@ -167,8 +167,10 @@ let handle_s (f : string array) : string =
 (* ---------- real captures: K id suite wC wS clientRandom serverRandom masterSecret recsC2S recsS2C --------------
    The key block is derived from the master secret as gmtls does (Agree/KeyModel.v keysFromMasterSecret over
    HMAC-SM3); then every record captured after ChangeCipherSpec is opened with the record-layer model: the
-   Finished record under sequence number 0, then the application data records.  Output: the application bytes
-   of both directions. *)
+   Finished record under sequence number 0, then the application data records; the verify_data of both Finished
+   messages is recomputed from the handshake messages captured in the clear (SM3 of the transcript, PRF with the
+   finished labels: Agree/KeyModel.v finishedSum_bytes).  Output: the application bytes of both directions and
+   whether the two verify_data values are the expected ones. *)
 let handle_k (f : string array) : string =
   let suite = f.(2) in
   let cr = bytes_of_hex f.(5) and sr = bytes_of_hex f.(6) and ms = bytes_of_hex f.(7) in
@@ -183,23 +185,51 @@ let handle_k (f : string array) : string =
         { hc_err = false; hc_version = version_gmssl; hc_cipher = CipherCBC (rk, iv); hc_mac = Some mac; hc_seq = zero_seq }
       else
         { hc_err = false; hc_version = version_gmssl; hc_cipher = CipherAEAD (rk, iv); hc_mac = None; hc_seq = zero_seq } in
-    let decode (hc0 : halfConn) (recs : n list list) : (n list, string) result =
-      let rec go hc j acc = function
-        | [] -> Result.Ok (List.concat (List.rev acc))
+    (* decode one direction: (verify_data of the Finished record, application bytes) *)
+    let decode (hc0 : halfConn) (recs : n list list) : (n list * n list, string) result =
+      let rec go hc j fin acc = function
+        | [] -> Result.Ok (fin, List.concat (List.rev acc))
         | r :: rest ->
           (match decrypt prims hc r with
            | Ok (hc', Some pt) ->
              let typ = int_of_n (List.hd r) in
              if j = 0 then
-               (* the Finished message: handshake type 20, 12 bytes of verify_data *)
-               if typ = 22 && List.length pt = 16 && int_of_n (List.hd pt) = 20 then go hc' (j + 1) acc rest
+               (* the Finished message: handshake type 20, length 12, 12 bytes of verify_data *)
+               if typ = 22 && List.length pt = 16 && List.map int_of_n (List.filteri (fun i _ -> i < 4) pt) = [20; 0; 0; 12]
+               then go hc' (j + 1) pt acc rest
                else Result.Error (Printf.sprintf "finished-shape-%d" j)
-             else if typ = 23 then go hc' (j + 1) (pt :: acc) rest
+             else if typ = 23 then go hc' (j + 1) fin (pt :: acc) rest
              else Result.Error (Printf.sprintf "type-%d" j)
            | _ -> Result.Error (Printf.sprintf "rejected-%d" j)) in
-      go hc0 0 [] recs in
+      go hc0 0 [] [] recs in
+    (* the handshake messages of one side, split behind the message of the given type *)
+    let split_after (typ : int) (b : n list) : n list * n list =
+      let a = Array.of_list b in
+      let len = Array.length a in
+      let rec go off =
+        if off + 4 > len then len
+        else
+          let l = (int_of_n a.(off + 1) lsl 16) lor (int_of_n a.(off + 2) lsl 8) lor int_of_n a.(off + 3) in
+          let next = min len (off + 4 + l) in
+          if int_of_n a.(off) = typ then next else go next in
+      let cut = go 0 in
+      (Array.to_list (Array.sub a 0 cut), Array.to_list (Array.sub a cut (len - cut))) in
     (match decode (mk cKey cMAC cIV) (hexlist_of f.(8)), decode (mk sKey sMAC sIV) (hexlist_of f.(9)) with
-     | Result.Ok a, Result.Ok b -> "ok " ^ hex_of_bytes a ^ " " ^ hex_of_bytes b
+     | Result.Ok (finC, a), Result.Ok (finS, b) ->
+       (* verify_data = PRF(master_secret, finished_label, SM3(handshake_messages))[0..11]:
+          ClientHello, the server's flight up to ServerHelloDone, the client's second flight; for the server's
+          Finished additionally the client's Finished message and what the server sent after it (session ticket) *)
+       let hsC = bytes_of_hex f.(10) and hsS = bytes_of_hex f.(11) in
+       let (hello, flight3) = split_after 1 hsC in
+       let (flight2, flight4) = split_after 14 hsS in
+       let t1 = hello @ flight2 @ flight3 in
+       let t2 = t1 @ finC @ flight4 in
+       let verify client t =
+         match finishedSum_bytes hmac_sm3 (nat_of_int 16) client ms (sm3 t) with
+         | Ok v -> v | _ -> [] in
+       let tail12 m = List.filteri (fun i _ -> i >= 4) m in
+       let okC = (verify true t1 = tail12 finC) and okS = (verify false t2 = tail12 finS) in
+       Printf.sprintf "ok %s %s %d %d" (hex_of_bytes a) (hex_of_bytes b) (if okC then 1 else 0) (if okS then 1 else 0)
      | Result.Error e, _ -> "err c2s-" ^ e
      | _, Result.Error e -> "err s2c-" ^ e)
   | _ -> "err keyblock"
